@@ -9,11 +9,13 @@ import (
 
 	"github.com/lugu/qiloop/bus"
 	"github.com/lugu/qiloop/bus/directory"
+	"github.com/lugu/qiloop/bus/net"
 	probe "github.com/lugu/qiloop/zzprobe"
 
 	"qsimharness/core"
 	"qsimharness/ref"
 	"zzsim"
+	"zzsim/simnet"
 )
 
 // C12: one authenticated client cannot stop a service from serving others,
@@ -57,6 +59,19 @@ func (c12) Gen(r *rand.Rand, tier string, run int) *core.Case {
 		// the fresh client does not wait for the server to have digested the
 		// hostile client's traffic: it arrives while that traffic is queued
 		c.Params["eager"] = 1
+	}
+	if r.IntN(25) == 0 {
+		// a server that listens at a pipe:// address (descriptors passed over
+		// a unix socket): the hostile client, authenticated on a connection of
+		// its own, opens further connections and gives them up in the middle
+		// of the transport's own handshake
+		c.Batch = "pipe-listener"
+		c.Params = map[string]int{}
+		c.Sim.YieldCap = 0
+		for i := 0; i < 1+r.IntN(3); i++ {
+			c.Ops = append(c.Ops, core.Op{Kind: "botch", Actor: 300, X: int64(r.IntN(3)), Y: int64(r.IntN(30))})
+		}
+		return c
 	}
 	n := 3 + r.IntN(10)
 	for i := 0; i < n; i++ {
@@ -104,7 +119,109 @@ type c12state struct {
 	listingSize int           // size of the directory's answer to services() after a failed probe, as read by a peer without a size limit
 }
 
+const c12pipeAddr = "pipe:///run/qsim-c12-fd.sock"
+
+// c12pipe: see Gen. Nothing here is a message yet: a connection that ends
+// before, or sends something else than, the descriptor the transport expects
+// is the business of that connection alone.
+func c12pipe(c *core.Case, env *core.Env) {
+	zzsim.SetNode("server")
+	l, err := net.Listen(c12pipeAddr)
+	var srv bus.Server
+	if err == nil {
+		srv, err = bus.StandAloneServer(l, bus.Dictionary(map[string]string{"u": "p"}), bus.PrivateNamespace())
+	}
+	var svc bus.Service
+	if err == nil {
+		svc, err = srv.NewService("Probe", probe.ProbeObject(&ProbeImpl{Env: env, Obj: 0}))
+	}
+	zzsim.SetNode("harness")
+	if err != nil {
+		env.Violate("harness/setup", "%v", err)
+		return
+	}
+	connect := func(node string) (bus.Client, error) {
+		zzsim.SetNode(node)
+		defer zzsim.SetNode("harness")
+		_, ch, err := bus.SelectEndPoint([]string{c12pipeAddr}, "u", "p")
+		if err != nil {
+			return nil, err
+		}
+		return bus.NewClient(ch), nil
+	}
+	call := func(cl bus.Client, a int, what string) {
+		h := env.Invoke(a, what, "")
+		p, err := ProbeProxy(cl, svc.ServiceID(), 1)
+		var ret probe.Token
+		if err == nil {
+			ret, err = p.Echo(probe.Token{Client: int32(a), Seq: 1, Nonce: 7, Text: "p"})
+		}
+		env.Return(h, tokOf(ret).String(), err)
+	}
+	h := env.Invoke(300, "hostile-connect", "")
+	hcl, err := connect("hostile")
+	env.Return(h, "", err)
+	if err != nil {
+		return
+	}
+	call(hcl, 300, "hostile-call")
+	for _, op := range c.Ops {
+		zzsim.SetNode("hostile")
+		uc, err := simnet.Dial("unix", strings.TrimPrefix(c12pipeAddr, "pipe://"))
+		if err != nil {
+			zzsim.SetNode("harness")
+			env.Note("botch: dial: %v", err)
+			continue
+		}
+		for j := 0; j < int(op.Y); j++ {
+			zzsim.Yield("h.botch")
+		}
+		switch op.X {
+		case 0:
+			// gone before anything was exchanged
+			env.Probe("connections-given-up-before-the-descriptor")
+		case 1:
+			// a byte that carries no descriptor, then gone
+			uc.Write([]byte{0})
+			env.Probe("connections-sending-a-byte-without-descriptor")
+		default:
+			// reset instead of closed
+			uc.Abort()
+			env.Probe("connections-reset-before-the-descriptor")
+		}
+		uc.Close()
+		zzsim.SetNode("harness")
+	}
+	env.S.Quiesce()
+	// the others: the hostile client's first connection is one of them
+	call(hcl, 300, "hostile-call-again")
+	h = env.Invoke(1, "fresh-connect", "")
+	fcl, err := connect("fresh")
+	env.Return(h, "", err)
+	if err == nil {
+		call(fcl, 1, "fresh-call")
+	}
+}
+
+func c12pipeCheck(c *core.Case, env *core.Env, res zzsim.Result, v *core.Verdict) {
+	for _, h := range env.History() {
+		switch {
+		case h.Ret == 0:
+			v.Violations = append(v.Violations, core.Violation{Class: "C12/pipe-listener/hang/" + h.Kind, Detail: fmt.Sprintf("a server listening at %s, connections given up during the handshake of the transport: %s never returned", c12pipeAddr, h)})
+		case !h.OK:
+			v.Violations = append(v.Violations, core.Violation{Class: "C12/pipe-listener/" + h.Kind + "-refused", Detail: fmt.Sprintf("a server listening at %s, connections given up during the handshake of the transport: %s", c12pipeAddr, h)})
+		default:
+			v.OpsDone++
+		}
+	}
+	v.Nontrivial = true
+}
+
 func (c12) Run(c *core.Case, env *core.Env) {
+	if c.Batch == "pipe-listener" {
+		c12pipe(c, env)
+		return
+	}
 	st := &c12state{removedObjs: map[uint32]bool{}, removedSvcs: map[uint32]bool{}, focus: c.P("focus", 0)}
 	env.Set("st", st)
 	zzsim.SetNode("server")
@@ -731,6 +848,10 @@ func (c12) StepCapReached(c *core.Case, env *core.Env, last zzsim.GInfo) *core.V
 }
 
 func (c12) Check(c *core.Case, env *core.Env, res zzsim.Result, v *core.Verdict) {
+	if c.Batch == "pipe-listener" {
+		c12pipeCheck(c, env, res, v)
+		return
+	}
 	st, _ := env.Get("st").(*c12state)
 	if st == nil || st.w == nil {
 		return
